@@ -231,13 +231,25 @@ def t_del_and_unpack():
     return len(d) + len(e) + e['c'] + e['z'] + rows[0] + PAIR_A + PAIR_B + FIRST * 100 + SECOND     # 2+3+3+26+2+30+4+300+2 = 372
 
 
+def _fact(n):
+    return 1 if n <= 1 else n * _fact(n - 1)
+
+
+def t_recursion_and_empty_dict():
+    d = {}
+    k = ('x', 2)
+    hit = 10 if k in d else 20
+    p = Pair._make((3, 4))
+    return _fact(3) + hit + p.b          # 6 + 20 + 4 = 30
+
+
 def t_getters():
     first = operator.itemgetter(0)
     wid = operator.attrgetter('width')
     return first((8, 9)) + wid(Box(1, 4))              # 8 + 3 = 11
 '''
 
-EXPECT = {'t_namedtuple': 27, 't_subclass': 34, 't_partial': 42, 't_reduce': 63, 't_generators': 44, 't_sets_dicts': 74, 't_classes': 34, 't_getters': 11, 't_property_objects': 67, 't_itertools': 53, 't_lazy_pipeline': 45, 't_generator_fed_by_iterator': 33, 't_list_methods': 222, 't_del_and_unpack': 372}
+EXPECT = {'t_namedtuple': 27, 't_subclass': 34, 't_partial': 42, 't_reduce': 63, 't_generators': 44, 't_sets_dicts': 74, 't_classes': 34, 't_getters': 11, 't_property_objects': 67, 't_itertools': 53, 't_lazy_pipeline': 45, 't_generator_fed_by_iterator': 33, 't_list_methods': 222, 't_del_and_unpack': 372, 't_recursion_and_empty_dict': 30}
 
 
 FILE_SRC = '''
